@@ -252,6 +252,17 @@ def step (line : String) : String :=
       let r : Reg Nat Nat := Reg.combine ms
       sepList "," (r.map (fun e => s!"{e.1}:{e.2}"))
     | none => "bad-op"
+  | ["RESIST", table, feats] =>
+    let parsePair := fun (e : String) => match e.splitOn ":" with
+      | [k, v] => do pure ((← k.toNat?), (← v.toNat?))
+      | _ => none
+    match (splitList "," table).mapM parsePair, (splitList "|" feats).mapM (fun f => (splitList "," f).mapM String.toNat?) with
+    | some t, some fs =>
+      match findResistance t fs with
+      | .ok r => s!"ok:{r}"
+      | .error .multiple => "multiple"
+      | .error .notFound => "notfound"
+    | _, _ => "bad-op"
   | ["CHAR", classes, w] =>
     match (splitList "|" classes).mapM parseSpec, parseWord w with
     | some specs, some w =>
